@@ -26,18 +26,3 @@ fn kani_concrete_playback_vk_c06_agree_divide_I_I_11495397963500439757() {
     kani::concrete_playback_run(concrete_vals, vk_c06_agree_divide_I_I);
 }
 
-/// Test generated for harness `core::casting::vk_c06::vk_c06_agree_divide_I_I` 
-///
-/// Check for `cover`: "vk_reached"
-
-#[test]
-fn kani_concrete_playback_vk_c06_agree_divide_I_I_13493778262038264353() {
-    let concrete_vals: Vec<Vec<u8>> = vec![
-        // 0
-        vec![0, 0],
-        // 24320
-        vec![0, 95],
-    ];
-    kani::concrete_playback_run(concrete_vals, vk_c06_agree_divide_I_I);
-}
-
